@@ -295,6 +295,9 @@ class C10(Check):
                         errs.append(("csv-name", f"{ln!r} vs {s.name!r}"))
                     elif (cols[2] == "no") != ("_unloc_" in s.name) or cols[2] not in ("yes", "no"):
                         errs.append(("csv-localised", f"{ln!r}"))
+                    elif not cols[1] or not (s.name == prefix + cols[1] if cols[2] == "yes" else s.name.startswith(prefix + cols[1] + "_unloc_")):
+                        # the line has to say which chromosome it is: the scaffold name without the autosome prefix
+                        errs.append(("csv-chromosome", f"{ln!r} (prefix {prefix!r})"))
         # name tags and unpainted names, piece by piece (only where a piece is a well-defined set of whole rows)
         target_seen = False
         for sname, pieces in scaffolds if piece_clause else ():
@@ -428,7 +431,10 @@ class C10(Check):
             ctx.sample({"input": pv.jsonable(inp), "pretext": pv.jsonable((1.0, scaffolds)), "prefix": "SUPER_"})
         elif kind == "tagpairs":
             # two name-tagged chromosomes in one assembly whose tags are related (one is a prefix of the other), with unlocs
-            for t1, t2 in (("I", "I_II"), ("X", "X1"), ("B", "B1"), ("II", "I"), ("X1", "X")):
+            # ... and tags made of the letters of the autosome prefix itself (U and S1 under SUPER_, R and L1 under RL_, c and h1 under chr)
+            pairs = [(t1, t2, "SUPER_") for t1, t2 in (("I", "I_II"), ("X", "X1"), ("B", "B1"), ("II", "I"), ("X1", "X"))]
+            pairs += [(pf[1], pf[0] + "1", pf) for pf in PREFIXES] + [(pf[0], pf[-1] + pf[0], pf) for pf in PREFIXES]
+            for t1, t2, pf in pairs:
                 for confs in itertools.product(CHR_CONF[:3], repeat=2):
                     for lens in ((30, 20), (20, 30)):
                         for order in (0, 1):
@@ -437,7 +443,7 @@ class C10(Check):
                             new = []
                             for (n, ps), t in zip(scaffolds, tags):
                                 new.append((n, tuple((p[0], p[1], p[2], p[3], p[4] + (t,)) for p in ps)))
-                            self.run_case(inp, tuple(new), "SUPER_", ctx)
+                            self.run_case(inp, tuple(new), pf, ctx)
             ctx.sample({"tagpairs": "two name-tagged chromosomes with related tags (I / I_II, X / X1, B / B1)"})
         elif kind == "gapped":
             # chromosomes whose order by bases differs from their order by gapped span
@@ -587,3 +593,4 @@ CHECK = C10()
 CHECK.rule += ' Name-tag pairs where one tag is a prefix of the other (I / I_II, X / X_2 ...); the prefix given to the constructor or assigned afterwards must give the same names; a second request to the same BuildAssembly must repeat the first.'
 CHECK.rule += ' A chromosome name tag (Z) on a Pretext scaffold that is not painted. An assembly that holds chromosomes must be flagged curated (the command line writes its chromosome list only then).'
 CHECK.rule += ' Target mode (haplotig pieces in scaffolds with and without Target, before and after the first Target). A Singleton chromosome with an unloc listed before or after it.'
+CHECK.rule += ' Chromosome list: the chromosome column is the scaffold name without the autosome prefix (for an unloc, of its chromosome); name tags made of the letters of the prefix itself (U / S1 under SUPER_, L / R1 under RL_, h / c1 under chr).'
